@@ -436,12 +436,16 @@ impl CodeGenerator {
             IRNode::Map {
                 input, projection, ..
             } => {
-                // For Map, check if output is binary
-                if projection.len() != 2 {
+                // For Map, the output must be the edge relation itself: tc(X, Y) <- edge(X, Y).
+                // A base case that swaps or repeats columns (tc(X, Y) <- edge(Y, X)) is not
+                // the closure of `edge`.
+                if projection.as_slice() != [0, 1] {
                     return None;
                 }
                 match input.as_ref() {
-                    IRNode::Scan { relation, .. } => (relation.clone(), 2),
+                    IRNode::Scan { relation, schema } if schema.len() == 2 => {
+                        (relation.clone(), 2)
+                    }
                     _ => return None,
                 }
             }
@@ -499,13 +503,15 @@ impl CodeGenerator {
                 }
             }
             // Also handle Map over Join (for projections)
-            IRNode::Map { input, .. } => match input.as_ref() {
+            IRNode::Map {
+                input, projection, ..
+            } => match input.as_ref() {
                 IRNode::Join {
                     left,
                     right,
                     left_keys,
                     right_keys,
-                    ..
+                    output_schema,
                 } => {
                     let left_scans_edge = match left.as_ref() {
                         IRNode::Scan { relation, .. } => relation == &edge_relation,
@@ -517,7 +523,21 @@ impl CodeGenerator {
                     };
                     let correct_keys = left_keys == &[1] && right_keys == &[0];
 
-                    if left_scans_edge && right_scans_recursive && correct_keys {
+                    // The head must be tc(X, Z) for edge(X, Y), tc(Y, Z): the edge's first
+                    // column, then the recursive relation's second column. Any other
+                    // projection (tc(Z, X), tc(X, Y), ...) is a different relation.
+                    let head_is_tc = match (left.as_ref(), right.as_ref()) {
+                        (
+                            IRNode::Scan { schema: ls, .. },
+                            IRNode::Scan { schema: rs, .. },
+                        ) if ls.len() == 2 && rs.len() == 2 && projection.len() == 2 => {
+                            let col = |i: usize| projection.get(i).and_then(|&c| output_schema.get(c));
+                            col(0) == ls.first() && col(1) == rs.get(1) && ls.first() != rs.get(1)
+                        }
+                        _ => false,
+                    };
+
+                    if left_scans_edge && right_scans_recursive && correct_keys && head_is_tc {
                         Some(edge_relation)
                     } else {
                         None
